@@ -291,7 +291,54 @@ def _is_alpha(binop):
     return False
 
 
+def clause_d(repo, chk):
+    """once-only likelihood terms: the batch index reaches eval_nll_part from every batched loop"""
+    from ..model import bind_call
+
+    chk.rule("D-idx", "inside a loop over data batches every call of a callee that has an `idx` parameter binds it to the loop's enumerate counter (eval_nll_part adds once-only terms under `if idx == 0`; a defaulted idx adds them once per batch, making the NLL depend on the batch size)")
+    cls = repo.cls("tf_pwa/model/custom.py::BaseCustomModel")
+    n = 0
+    for mname, f in sorted(cls.methods.items()):
+        for lp in [x for x in walk_local(f.node) if isinstance(x, ast.For)]:
+            counter = None
+            it = lp.iter
+            if isinstance(it, ast.Call) and isinstance(it.func, ast.Name) and it.func.id == "enumerate" and isinstance(lp.target, ast.Tuple) and isinstance(lp.target.elts[0], ast.Name):
+                counter = lp.target.elts[0].id
+            for c in [x for st in lp.body for x in ast.walk(st) if isinstance(x, ast.Call)]:
+                if not (isinstance(c.func, ast.Attribute) and isinstance(c.func.value, ast.Name) and c.func.value.id == "self"):
+                    continue
+                g = cls.lookup(c.func.attr)
+                if g is None or "idx" not in g.all_param_names():
+                    continue
+                bound, extra, star, kw = bind_call(c, g)
+                b = bound.get("idx")
+                n += 1
+                ok = b is not None and isinstance(b, ast.Name) and counter is not None and b.id == counter
+                chk.instance("D-idx", "BaseCustomModel.%s: `%s` binds idx=%s (loop counter %s): %s" % (mname, norm_text(c)[:70], norm_text(b) if b is not None else "<default>", counter, ok))
+                if not ok:
+                    chk.violation("D-idx", f.key, "idx:%s" % c.func.attr, "in the batch loop `%s` is called with idx=%s; every batch is then treated as batch 0 and once-only terms (fraction constraints) are added once per batch" % (norm_text(c)[:80], norm_text(b) if b is not None else "<default 0>"), file="tf_pwa/model/custom.py", line=c.lineno)
+    # the forwarding inside the helpers themselves (own parameter idx -> callee idx)
+    for mname in ("_fast_nll_part_grad", "_fast_nll_part_grad_multi"):
+        f = cls.methods.get(mname)
+        if f is None:
+            raise AnalysisError("anchor vanished: BaseCustomModel.%s" % mname)
+        for c in [x for x in ast.walk(f.node) if isinstance(x, ast.Call) and isinstance(x.func, ast.Attribute) and isinstance(x.func.value, ast.Name) and x.func.value.id == "self"]:
+            g = cls.lookup(c.func.attr)
+            if g is None or "idx" not in g.all_param_names() or g is f:
+                continue
+            bound, extra, star, kw = bind_call(c, g)
+            b = bound.get("idx")
+            n += 1
+            ok = isinstance(b, ast.Name) and b.id == "idx"
+            chk.instance("D-idx", "BaseCustomModel.%s forwards its idx to %s: %s" % (mname, c.func.attr, ok))
+            if not ok:
+                chk.violation("D-idx", f.key, "forward:%s" % c.func.attr, "%s does not forward its own `idx` to %s" % (mname, c.func.attr), file="tf_pwa/model/custom.py", line=c.lineno)
+    if n < 5:
+        raise AnalysisError("only %d idx bindings found in BaseCustomModel" % n)
+
+
 def run(repo, chk, tier):
+    clause_d(repo, chk)
     clause_a(repo, chk)
     clause_b(repo, chk)
     clause_c(repo, chk)
